@@ -48,3 +48,12 @@ extern "C" void harness_crossproduct_no_overflow_40() {
   double dp = DotProduct(p1, p2, p3); (void)dp;
   verif_reach();
 }
+
+// C18.e / C10: Area(Path64) forms its shoelace products in double: no signed 64-bit overflow for |coordinates| <= 2^40
+extern "C" void harness_area_no_overflow_40() {
+  Path64 p; p.reserve(4);
+  for (int i = 0; i < 4; ++i) p.push_back(Point64(c40(), c40()));
+  double a = Area(p); (void)a;
+  bool pos = IsPositive(p); (void)pos;
+  verif_reach();
+}
